@@ -1,5 +1,6 @@
 (* C02 - perfect reconstruction (line level).  Statements only. *)
-From PW Require Import Base.Ops Base.Sum Base.Sig Spec.Line Proofs.LineTheory.
+From Coq Require Import String.
+From PW Require Import Base.Ops Base.Sum Base.Sig Base.Tensor Model.Dwt Spec.Line Proofs.DwtNF Proofs.LineTheory Proofs.C01Proofs Proofs.C02Proofs Proofs.PywtProofs Gen.PywtTables.
 
 (* master identity: synthesis (window [ka,kb)) of the analysis of ANY signal on the line = the signal filtered by the
    kernel Pk built from the four filters; no hypothesis on the filters *)
@@ -27,6 +28,45 @@ Theorem C02_kernel_window :
   Pk Op L d0 d1 g0 g1 ka' kb' i d = Pk Op L d0 d1 g0 g1 ka kb i d.
 Proof. intros. apply Pk_window; assumption. Qed.
 Print Assumptions C02_kernel_window.
+
+(* ---- on the tensor-level model of the code ---- *)
+(* one level, four non-periodization modes, every size: SFB1D (AFB1D x) = x on the extent, output one sample longer for odd
+   sizes, under the filter-only kernel condition PRcond (kernel of both output parities = unit impulse) *)
+Theorem C02_level_1d :
+  forall (R:Type) (Op:Ops R) (Rth:RingOk Op) (x:@ten R) L d0 d1 g0 g1 mode,
+  2 <= L -> 1 <= tW x -> 1 <= tH x -> 0 < tC x -> level_ok mode L (tW x) -> (mode = M_REFLECT -> 2 <= tW x) ->
+  PRcond Op L d0 d1 g0 g1 ->
+  is_ok (AFB1D_fwd Op x L (rev_filt L d0) (rev_filt L d1) mode) (fun r =>
+    is_ok (SFB1D_fwd Op (fst r) (snd r) L g0 g1 mode) (fun y =>
+      tN y = tN x /\ tC y = tC x /\ tH y = tH x /\ tW x <= tW y <= tW x + 1 /\
+      forall n c i j, 0 <= c < tC x -> 0 <= i < tH x -> 0 <= j < tW x -> tf y n c i j = tf x n c i j)).
+Proof. exact @pr_level_1d. Qed.
+Print Assumptions C02_level_1d.
+
+(* every J: DWT1DInverse (DWT1DForward x) = x on the extent, including the unpad rule for one-sample-longer lowpasses *)
+Theorem C02_multilevel_1d :
+  forall (R:Type) (Op:Ops R) (Rth:RingOk Op) (J:nat) (x:@ten R) L d0 d1 g0 g1 mode,
+  2 <= L -> 1 <= tH x -> 0 < tC x -> 1 <= tW x -> levels_ok J mode L (tW x) -> PRcond Op L d0 d1 g0 g1 ->
+  is_ok (DWT1DForward Op J x L (rev_filt L d0) (rev_filt L d1) mode) (fun r =>
+    is_ok (DWT1DInverse Op (fst r) (map Some (snd r)) L g0 g1 mode) (fun y =>
+      tN y = tN x /\ tC y = tC x /\ tH y = tH x /\ tW x <= tW y <= tW x + 1 /\
+      forall nn c i j, 0 <= c < tC x -> 0 <= i < tH x -> 0 <= j < tW x -> tf y nn c i j = tf x nn c i j)).
+Proof. intros R Op Rth J. exact (pr_multilevel_1d Op Rth J). Qed.
+Print Assumptions C02_multilevel_1d.
+
+(* ---- filter side: all 106 PyWavelets banks (exact dyadic taps regenerated from the installed package) ---- *)
+(* l1 deviation of the reconstruction kernel from the unit impulse <= 2^-34 (dmey: 2^-7), both output parities *)
+Theorem C02_pywt_kernels :
+  forallb (fun b => bank_ok (if String.eqb (fst (fst (fst (fst (fst b))))) "dmey" then 7 else 34) b) pywt_banks = true.
+Proof. exact all_banks_hold. Qed.
+Print Assumptions C02_pywt_kernels.
+(* what that deviation bounds: for ANY integer signal bounded by M the (2^260-scaled) reconstruction differs from the signal by at most residual * M *)
+Theorem C02_error_bound_Z :
+  forall L (d0 d1 g0 g1 X:Z->Z) ka kb i M, 0 < L -> ka <= kb ->
+  (forall k, ~(ka <= k < kb) -> ~(0 <= i + (L-2) - 2*k < L)) -> (forall u, Z.abs (X u) <= M) ->
+  Z.abs (synL ZOps L g0 g1 ka kb (anaL ZOps L d0 X) (anaL ZOps L d1 X) i - 2 ^ (2*KP) * X i) <= residual L d0 d1 g0 g1 (i mod 2) * M.
+Proof. exact recon_error_Z. Qed.
+Print Assumptions C02_error_bound_Z.
 
 (* non-vacuity: Haar over Z (unnormalised: dec = (1,1),(-1,1); rec = (1,1),(1,-1); kernel = 2*delta), window [0,3) *)
 Example C02_haar_kernel :
